@@ -50,6 +50,8 @@ struct Hist {
     steps: Vec<Step>,
     /// all records, separator included; index = record id
     recs: Vec<Vec<u8>>,
+    /// pre-existing (empty) members of the set, dated in the future of the whole history
+    pre: Vec<String>,
 }
 
 fn gen_history(seed: u64, idx: u64) -> Hist {
@@ -107,7 +109,16 @@ fn gen_history(seed: u64, idx: u64) -> Hist {
         let retry_adv_ms = *g.pick(&[0u64, 0, 7, 700, 61_000]);
         steps.push(Step::Batch { adv_ms, retry_adv_ms, recs: ids });
     }
-    Hist { idx, cfg, reuse0: g.bool(), start, dir_exists: g.bool(), steps, recs }
+    // full sets whose members all sort AFTER anything the history creates: the new file is the oldest by name
+    let mut pre = Vec::new();
+    if cfg.max_files <= 4 && g.chance(1, 2) {
+        for k in 0..1 + g.usize(cfg.max_files) {
+            let t = start + (400 + k as u64) * 86_400_000_000_000;
+            let (p, ms) = period_of(cfg.roll, t);
+            pre.push(format!("app.{}.{:08}.{:08x}.log", p, ms, 0xf000_0000u32 + k as u32));
+        }
+    }
+    Hist { idx, cfg, reuse0: g.bool(), start, dir_exists: g.bool(), steps, recs, pre }
 }
 
 /// Tiny histories (2-3 batches of 1-2 small records, reuse on for even indices) for the exhaustive
@@ -145,14 +156,21 @@ fn gen_tiny(seed: u64, idx: u64) -> Hist {
         }
         steps.push(Step::Batch { adv_ms: *g.pick(&[0u64, 5, 1_500, 61_000]), retry_adv_ms: *g.pick(&[0u64, 7]), recs: ids });
     }
-    Hist { idx: 1_000_000 + idx, cfg, reuse0: idx % 2 == 0, start, dir_exists: g.bool(), steps, recs }
+    let mut pre = Vec::new();
+    if cfg.max_files == 2 && g.bool() {
+        for k in 0..2u64 {
+            let (p, ms) = period_of(cfg.roll, start + (9 + k) * 86_400_000_000_000);
+            pre.push(format!("app.{}.{:08}.{:08x}.log", p, ms, 0xf000_0000u32 + k as u32));
+        }
+    }
+    Hist { idx: 1_000_000 + idx, cfg, reuse0: idx % 2 == 0, start, dir_exists: g.bool(), steps, recs, pre }
 }
 
 impl Hist {
     fn to_json(&self) -> Json {
         json!({
             "config": self.cfg.to_json(), "reuse_files": self.reuse0, "start_unix_nanos": self.start,
-            "dir_exists": self.dir_exists,
+            "dir_exists": self.dir_exists, "pre_existing_future_dated_members": self.pre,
             "steps": self.steps.iter().map(|s| match s {
                 Step::Batch { adv_ms, retry_adv_ms, recs } => json!({"batch": recs.iter().map(|r| self.recs[*r].len()).collect::<Vec<_>>(),
                     "clock_advance_ms": adv_ms, "retry_advance_ms": retry_adv_ms}),
@@ -216,7 +234,8 @@ struct Oracle<'a> {
     /// body (without separator) -> record id
     bodies: HashMap<&'a [u8], usize>,
     grave_seen: usize,
-    grave_durable: HashSet<usize>,
+    /// record id -> latest batch number in which a file holding it (complete, synced) was deleted through the API
+    grave_durable: HashMap<usize, u64>,
 }
 
 impl<'a> Oracle<'a> {
@@ -225,22 +244,26 @@ impl<'a> Oracle<'a> {
         for (i, r) in h.recs.iter().enumerate() {
             bodies.insert(&r[..r.len() - 1], i);
         }
-        Oracle { h, bodies, grave_seen: 0, grave_durable: HashSet::new() }
+        Oracle { h, bodies, grave_seen: 0, grave_durable: HashMap::new() }
     }
 
     /// Returns the set of records that are complete inside synced bytes.
-    fn check(&mut self, fs: &FakeFs, acked: &[bool], out: &mut Outcome, when: &str) -> HashSet<usize> {
+    fn check(&mut self, fs: &FakeFs, acked: &[Option<u64>], out: &mut Outcome, when: &str) -> HashSet<usize> {
         let sep = self.h.cfg.sep[0];
         let st = fs.lock();
         let mut durable: HashSet<usize> = HashSet::new();
-        // graveyard: files deleted through the API keep counting for (1) with what was synced then
+        // graveyard: a file deleted through the API keeps counting for (1) with what was synced then, but only
+        // for records acknowledged by an EARLIER batch than the one that deleted it: a record acknowledged
+        // by batch k has to sit in an existing file when batch k returns
         while self.grave_seen < st.graveyard.len() {
-            let (_, bytes) = &st.graveyard[self.grave_seen];
+            let (_, bytes, tag) = &st.graveyard[self.grave_seen];
+            let deleted_in_batch = *tag / 16;
             let mut s = 0;
             for (i, b) in bytes.iter().enumerate() {
                 if *b == sep {
                     if let Some(id) = self.bodies.get(&bytes[s..i]) {
-                        self.grave_durable.insert(*id);
+                        let e = self.grave_durable.entry(*id).or_insert(0);
+                        *e = (*e).max(deleted_in_batch);
                     }
                     s = i + 1;
                 }
@@ -310,7 +333,9 @@ impl<'a> Oracle<'a> {
         }
         // (1)
         for (id, a) in acked.iter().enumerate() {
-            if *a && !durable.contains(&id) && !self.grave_durable.contains(&id) {
+            let Some(acked_in_batch) = *a else { continue };
+            let deleted_later = self.grave_durable.get(&id).map(|d| *d > acked_in_batch).unwrap_or(false);
+            if !durable.contains(&id) && !deleted_later {
                 if out.problems.len() < 4 {
                     let rec = &self.h.recs[id];
                     let somewhere_unsynced = st.files.values().any(|n| {
@@ -330,6 +355,11 @@ impl<'a> Oracle<'a> {
                                 "ack-lost:file-vanished-in-crash:dir-entry-never-synced"
                             },
                             format!("it was synced into {} whose directory entry was never synced, so the file vanished in the crash", p),
+                        )
+                    } else if self.grave_durable.contains_key(&id) || st.orphans.iter().any(|(_, n)| n.content().windows(rec.len()).any(|w| w == &rec[..])) {
+                        (
+                            "ack-lost:file-deleted-by-the-acknowledging-batch",
+                            "the file it was written to was deleted by retention during the very batch that acknowledged it (the data only exists in an unlinked file)".to_string(),
                         )
                     } else {
                         ("ack-lost", "it is in no file at all".to_string())
@@ -357,6 +387,9 @@ fn run(h: &Hist, plan: &Plan) -> Outcome {
     if h.dir_exists {
         fs.add_dir(&h.cfg.dir);
     }
+    for name in &h.pre {
+        fs.add_file(&format!("{}/{}", h.cfg.dir, name), b"");
+    }
     fs.set_plan(plan.faults.clone());
     fs.set_sep(h.cfg.sep[0]);
     let clock = FakeClock::new(h.start);
@@ -378,7 +411,7 @@ fn run(h: &Hist, plan: &Plan) -> Outcome {
         op_kinds: Vec::new(),
     };
     let mut oracle = Oracle::new(h);
-    let mut acked = vec![false; h.recs.len()];
+    let mut acked: Vec<Option<u64>> = vec![None; h.recs.len()];
     let mut batch_no = 0u64;
     'steps: for step in &h.steps {
         match step {
@@ -399,7 +432,7 @@ fn run(h: &Hist, plan: &Plan) -> Outcome {
                     match res {
                         Attempt::Ok => {
                             for r in recs {
-                                acked[*r] = true;
+                                acked[*r] = Some(batch_no);
                             }
                             out.acked_batches += 1;
                             let durable = oracle.check(&fs, &acked, &mut out, &when);
@@ -500,7 +533,7 @@ fn evaluate(r: &mut Report, seed: u64, h: &Hist, plan: &Plan, variant: u64) -> O
         r.nontrivial(&(h.idx, plan.faults.iter().map(|f| (f.at, f.kind)).collect::<Vec<_>>(), variant));
     }
     for (oracle, msg) in &out.problems {
-        let sig = if oracle.starts_with("ack-lost:file-vanished") { format!("C10:{}", oracle) } else { format!("C10:{}:{}", oracle, fault_desc(&out, plan)) };
+        let sig = if oracle.starts_with("ack-lost:file-") { format!("C10:{}", oracle) } else { format!("C10:{}:{}", oracle, fault_desc(&out, plan)) };
         r.violation(
             &sig,
             msg,
